@@ -188,6 +188,8 @@ def run(ctx):
         "'observed' = delivered to the update loop; between a watcher's HTTP response and the rendez-vous a KV update may install a table built from the previous service config (inherent in two independent watchers)",
         "the fake Consul implements the documented blocking-query contract only",
     ]
+    # unbounded: RoutedWerePassing proved with TLAPS for every universe (TLC below is bounded)
+    ctx.tlaps("ControlPlane_Proof2", ["ControlPlane"])
     if not model_check(ctx):
         return
     if not health(ctx):
